@@ -276,7 +276,8 @@ def _node_extra(ctx, res, pid, mode):
 
 TREE_RULE = ("; plus the commit-time restructuring of one bucket's node tree: the tree right before Commit (pages and materialised nodes), the order of Bucket.rebalance's visits and "
              "every freelist Free/Allocate of the commit are recorded, and Tree.commit_tree (node.rebalance + node.spill as a function) must predict the tree of pages the commit leaves and "
-             "the event sequence exactly; delete runs that empty leaves, emptied buckets, thinning, growth; 2 page sizes, fill 5-150%")
+             "the event sequence exactly; delete runs that empty leaves, emptied buckets, thinning, growth; 2 page sizes, fill 5-150%; and the same for a bucket with 2-15 child buckets "
+             "(inline and paged, inline<->paged transitions, children created in the transaction): Tree.commit_bucket per child, Tree.commit_parent for the write-back and the parent's spill")
 
 
 def _tree_extra(ctx, res, pid, mode):
@@ -289,6 +290,11 @@ def _tree_extra(ctx, res, pid, mode):
         quick = ctx.tier == "quick" or ctx.budget_s
         runs = run_sharded(ctx2, "tree", 6 if quick else 16, lambda i: ["-seed", str(ctx.seed * 1000 + 800 + i), "-n", "150" if quick else "2500", "-dir", "{dir}"],
                            ctx.budget_s or (600 if quick else 3000), oracle_mode=mode)
+        for r in runs:
+            absorb(res, pid, *r)
+        # the same for a bucket WITH child buckets (Bucket.spill: inline / paged children written back through Cursor.seek + node.put)
+        runs = run_sharded(ctx2, "ntree", 4 if quick else 16, lambda i: ["-seed", str(ctx.seed * 1000 + 900 + i), "-n", "100" if quick else "1500", "-dir", "{dir}"],
+                           ctx.budget_s or (600 if quick else 3000), oracle_mode="n" + mode)
         for r in runs:
             absorb(res, pid, *r)
 
